@@ -342,7 +342,7 @@ func c14OnceRest(c *mon.Ctx, seen map[string]lint.LintStatus) {
 		}
 	}
 	// synthetic result sets: all eight statuses x adversarial details
-	advers := []string{"", "plain", "quote\" backslash\\ slash/", "<script>&amp;</script>", "line\nbreak\ttab\r", "\x00\x01\x1f\x7f", "  ", "\xc2", "abc\xe2\x82", "\xff\xfe", "\xed\xa0\x80", "\xf0\x9f\x98\x80 ok", "\xf4\x90\x80\x80", "café 你好", "\xc0\xaf", "a\x80b", strings.Repeat("\xe2\x82\xac", 100) + "\xe2"}
+	advers := append(append([]string{}, c14EscapeLookalikes...), "", "plain", "quote\" backslash\\ slash/", "<script>&amp;</script>", "line\nbreak\ttab\r", "\x00\x01\x1f\x7f", "  ", "\xc2", "abc\xe2\x82", "\xff\xfe", "\xed\xa0\x80", "\xf0\x9f\x98\x80 ok", "\xf4\x90\x80\x80", "café 你好", "\xc0\xaf", "a\x80b", strings.Repeat("\xe2\x82\xac", 100)+"\xe2")
 	for k := 0; k < c.Pick(300, 20000); k++ {
 		rs := &zlint.ResultSet{Version: int64(rng.Intn(5)), Timestamp: rng.Int63(), Results: map[string]*lint.LintResult{}}
 		n := 1 + rng.Intn(12)
@@ -375,6 +375,10 @@ func c14OnceRest(c *mon.Ctx, seen map[string]lint.LintStatus) {
 		c.R.Count("synthetic_sets", 1)
 	}
 }
+
+// c14EscapeLookalikes: plain texts that contain what JSON escapes look like
+var c14EscapeLookalikes = []string{`\u0026`, `a \u003c b \u003e c`, `\\u0026`, `\u2028 and \u2029`, `\"quoted\"`, `ends with a backslash \`, `\n is not a newline`, `\ud800 lone surrogate text`,
+	`&lt;b&gt; &amp;amp; &#38;`, `{"name":"e_fake","source":"RFC5280"}`, "first\n{\"name\":\"e_second_line\"}", `\u00e9 vs é`, `\x41 \101 \0`, `%s %d %v %!s(MISSING)`, `\\\\`, `\/ slash`, `</script><!--`, "\u0026 real ampersand escape? &"}
 
 func init() {
 	var nSeeds int
@@ -563,4 +567,22 @@ func c14Solo(c *mon.Ctx) {
 	}
 	check(fmt.Sprintf("after adding %d lints with unusual windows and texts", k))
 	c.R.Count("unusual_metadata_lints_listed", int64(k))
+	// texts that LOOK like what a JSON encoder produces: the six-character escapes written out as plain text
+	// (backslash, u, four hex digits), escaped quotes, a backslash at the very end, entity names, a line that looks
+	// like a listing line of its own. An encoder that post-processes its output (un-escaping, replacing) cannot tell
+	// them from its own escapes.
+	for ti, t := range c14EscapeLookalikes {
+		m := lint.LintMetadata{Name: fmt.Sprintf("e_verif_c14_text_%d", ti), Description: "description " + t, Citation: t, Source: []lint.LintSource{lint.RFC5280, lint.Community, lint.RFC6960}[ti%3]}
+		switch ti % 3 {
+		case 0:
+			lint.RegisterRevocationListLint(&lint.RevocationListLint{LintMetadata: m, Lint: func() lint.RevocationListLintInterface { return probeCRL{} }})
+		case 1:
+			lint.RegisterOcspResponseLint(&lint.OcspResponseLint{LintMetadata: m, Lint: func() lint.OcspResponseLintInterface { return probeOCSP{} }})
+		default:
+			lint.RegisterCertificateLint(&lint.CertificateLint{LintMetadata: m, Lint: func() lint.CertificateLintInterface { return probeCert{} }})
+		}
+		added[m.Name] = m
+	}
+	check(fmt.Sprintf("after adding %d lints whose texts look like JSON escapes", len(c14EscapeLookalikes)))
+	c.R.Count("escape_lookalike_lints_listed", int64(len(c14EscapeLookalikes)))
 }
